@@ -294,7 +294,7 @@ mod imp {
         /// `fn(p) e` (expression body, no braces)
         LambdaExpr(Vec<String>, Box<E>),
         /// if-EXPRESSION: each branch is a value block `{ e }`; bool = `else` on its own line
-        IfExpr(Box<E>, Box<E>, Box<E>, bool, bool),   // last: value blocks written on several lines
+        IfExpr(Box<E>, Box<E>, Box<E>, bool, bool, bool),   // value blocks on several lines; a statement before the value (rejected by the parser)
         BitNot(Box<E>),
     }
     #[derive(Clone, Debug)]
@@ -346,7 +346,7 @@ mod imp {
             // tail values may start with any prefix operator, `~` included (KF-C15-3 was repaired)
             let a = if self.r.chance(1, 8) { E::BitNot(Box::new(self.int_expr(0))) } else { self.int_expr(d) };
             let b = self.int_expr(d);
-            E::IfExpr(Box::new(c), Box::new(a), Box::new(b), self.r.chance(1, 4), self.r.chance(1, 3))
+            E::IfExpr(Box::new(c), Box::new(a), Box::new(b), self.r.chance(1, 4), self.r.chance(1, 3), self.r.chance(1, 60))
         }
         fn lambda(&mut self, in_parens: bool) -> E {
             let p = self.name("p");
@@ -580,9 +580,14 @@ mod imp {
                       _ => self.rv(e, "operand") }
         }
         /// `{ e }` value block of an if-expression: one line, the value directly before `}`
-        fn value_block(&mut self, e: &E, ml: bool) {
+        fn value_block(&mut self, e: &E, ml: bool, lead: bool) {
             self.o.push('{');
             if ml { self.ind += 1; self.nl("after-open-brace"); self.indent(); } else { self.sp(); }
+            // a statement before the value: the parser rejects the whole text, in every layout
+            if lead {
+                self.o.push_str("let zq = 1");
+                if self.fam == Fam::Semi { self.o.push_str("; "); } else { self.nl("between-stmts"); self.indent(); }
+            }
             let before = self.o.len();
             self.rv(e, "ifexpr-tail");
             if self.o[before..].starts_with('~') { self.tilde_tail += 1; }
@@ -613,13 +618,13 @@ mod imp {
                     self.close(")", if args.is_empty() { None } else { Some("before-method-rparen") }); }
                 E::Lambda(ps, body) => { self.o.push_str("fn("); self.o.push_str(&ps.join(", ")); self.o.push_str(") "); self.block(body, "lambda-body"); }
                 E::LambdaExpr(ps, body) => { self.o.push_str("fn("); self.o.push_str(&ps.join(", ")); self.o.push_str(") "); self.rv(body, "lambda-expr-body"); }
-                E::IfExpr(c, a, b, own_line, ml) => {
+                E::IfExpr(c, a, b, own_line, ml, lead) => {
                     // family Reflow: the same value block on one line or on several
                     let ml = if self.fam == Fam::Reflow && self.r.chance(1, 2) { self.note("Reflow:value-block".into()); !*ml } else { *ml };
-                    self.o.push_str("if"); self.sp(); self.rv(c, "ifexpr-cond"); self.sp(); self.value_block(a, ml);
+                    self.o.push_str("if"); self.sp(); self.rv(c, "ifexpr-cond"); self.sp(); self.value_block(a, ml, *lead);
                     // an `else` on its own line is only written where a newline is not swallowed by ( or [
                     if *own_line && self.paren == 0 { self.nl("before-own-line-else"); self.indent(); } else { self.sp(); }
-                    self.o.push_str("else"); self.sp(); self.value_block(b, ml);
+                    self.o.push_str("else"); self.sp(); self.value_block(b, ml, false);
                 }
             }
         }
@@ -743,13 +748,16 @@ mod imp {
         const TERMS: [&str; 4] = ["let d = 1", "return 3", "break", "continue"];
         const BLOCKS: [&str; 2] = ["while false { }", "for z in 0..1 { }"];   // an `if` inside a value block is always an if-EXPRESSION
         for case in 0..n {
-            let len = if case < 40 { case % 4 } else { r.range_i64(0, 6) as usize };
+            // half of the cases have the accepted shape (semicolons, one expression, semicolons); the rest are
+            // arbitrary item lists, which a value block now rejects as soon as they hold a statement or a second expression
+            let single = case >= 40 && r.chance(1, 2);
+            let len = if single { 1 } else if case < 40 { case % 4 } else { r.range_i64(0, 6) as usize };
             let mut items: Vec<String> = Vec::new();      // Coq items
             let mut text = String::from("let r = if true {");
             let mut starts: Vec<usize> = Vec::new();      // char offset of each expression item
             let mut prev = 0u8;                           // 0 nothing/semi, 1 expr or terminated statement, 2 block statement
             if r.chance(1, 6) { text.push_str(" ;"); items.push("BSemi".into()); }
-            let kinds: Vec<u64> = (0..len).map(|j| if j + 1 == len && r.chance(2, 3) { 0 } else { r.below(5) }).collect();
+            let kinds: Vec<u64> = (0..len).map(|j| if single || (j + 1 == len && r.chance(2, 3)) { 0 } else { r.below(5) }).collect();
             for j in 0..len {
                 text.push(' ');
                 let kind = kinds[j];
